@@ -404,7 +404,7 @@ func wrapMalformed(t *rapid.T, bad string) string {
 func TestC05(t *testing.T) {
 	p := begin(t, "C05")
 	r := p.r
-	r.SetRule("inject: generated core-language program with (probe k) calls at all depths (arguments, loop bodies, let bindings, map/apply callbacks, function bodies) = prefix; for EVERY k from 1 to the number of probe calls of the fault-free reference run (<=12) the host function probe fails on its k-th call, by returning an error or by a Go panic; the program is given as one text or one text per top-level form. Oracles: the evaluation returns an error (never a value); effects up to the failure equal the reference run with the same injected failure; VM stacks at rest (hooks); EvalString(\"\") = nil; every global of the name pool is bound iff bound in the reference's global frame at the failure, with an equal value; a generated battery of later evaluations (calls of the prefix's functions, loops, fresh definitions) agrees with the reference continuation form by form. nothingran: a malformed special form (23 shapes) buried under and/or/cond/let/fn/for/argument context, or a text with a parse error (13 shapes), evaluated after a generated prefix; twin interpreter that never saw the failing text is the oracle for state and battery. Non-trivial: failure at call depth >=1 or inside a loop/let/callback and the prefix defined >=2 things. Distinct by (program text, k, mode).")
+	r.SetRule("inject: generated core-language program with (probe k) calls at all depths (arguments, loop bodies, let bindings, map/apply callbacks, function bodies, and in a lazy argument kept in a global that is forced in the program and again by the later evaluations) = prefix; for EVERY k from 1 to the number of probe calls of the fault-free reference run (<=12) the host function probe fails on its k-th call, by returning an error or by a Go panic; the program is given as one text or one text per top-level form. Oracles: the evaluation returns an error (never a value); effects up to the failure equal the reference run with the same injected failure; VM stacks at rest (hooks); EvalString(\"\") = nil; every global of the name pool is bound iff bound in the reference's global frame at the failure, with an equal value; a generated battery of later evaluations (calls of the prefix's functions, loops, fresh definitions) agrees with the reference continuation form by form. nothingran: a malformed special form (23 shapes) buried under and/or/cond/let/fn/for/argument context, or a text with a parse error (13 shapes), evaluated after a generated prefix; twin interpreter that never saw the failing text is the oracle for state and battery. Non-trivial: failure at call depth >=1 or inside a loop/let/callback and the prefix defined >=2 things. Distinct by (program text, k, mode).")
 	r.Assume("failing texts of the nothingran sub-check contain no effects before the malformed form, so 'nothing ran' holds whether zygo reports the error at compile time or at run time", "defmac is not generated (it takes effect at compile time)")
 
 	p.rapidSub("inject", ev.Scale(1200, 160000), func(t *rapid.T) {
@@ -420,6 +420,26 @@ func TestC05(t *testing.T) {
 		}
 		battery := genBattery(g)
 		names := globalNames(g)
+		if rapid.IntRange(0, 3).Draw(t, "savedThunk") == 0 {
+			// a lazy argument object kept in a global: its forcing fails inside the program (when
+			// the failure point is its probe) and it is forced again by later evaluations, which
+			// must evaluate the expression then, as nothing of it was completed before
+			g.probeN++
+			thunkExpr := NPrim("+", NInt(1000), NTrace(&Node{K: "probe", I: int64(g.probeN)}))
+			pre := []*Node{
+				{K: "defn", S: "keepq", Names: []string{"#x"}, Kids: []*Node{NVar("#x")}},
+				NDef("savedq", NCall(NVar("keepq"), thunkExpr)),
+			}
+			use := NTrace(NPrim("force", NVar("savedq")))
+			pos := rapid.IntRange(0, len(forms)-1).Draw(t, "forcePos")
+			nf := append([]*Node{}, pre...)
+			nf = append(nf, forms[:pos]...)
+			nf = append(nf, use)
+			nf = append(nf, forms[pos:]...)
+			forms = nf
+			battery = append([]*Node{use}, battery...)
+			battery = append(battery, NTrace(NPrim("+", NPrim("force", NVar("savedq")), NInt(1))))
+		}
 		// fault-free reference run: how many probe calls?
 		ref := newRef(300000)
 		if _, err := ref.RunProgram(forms); err == errRefBudget {
